@@ -53,6 +53,18 @@ Proof. exact locale_rejects_overlong. Qed.
 Theorem C03_rejects_malformed : forall s t, In t (split s) -> existsb (fun b => negb (is_alnum b)) t = true ->
   exists e, locale_from_bytes s = Err e.
 Proof. exact locale_rejects_malformed. Qed.
+(* Locale::canonicalize is the same acceptor: it succeeds exactly when from_bytes does (returning the value's
+   string) and fails with exactly from_bytes's error *)
+Theorem C03_canonicalize_same_acceptor : forall s,
+  (forall t, loc_canonicalize s = Ok t <-> exists v, locale_from_bytes s = Ok v /\ t = loc_to_string v)
+  /\ (forall e, loc_canonicalize s = Err e <-> locale_from_bytes s = Err e).
+Proof.
+  intros s. unfold loc_canonicalize. destruct (locale_from_bytes s) as [v|e'| |]; cbn [bind]; split; intros x; split;
+    try congruence; try (intros (v' & H & _); congruence).
+  - intros H. exists v. split; [reflexivity|congruence].
+  - intros (v' & H & ->). congruence.
+Qed.
+Print Assumptions C03_canonicalize_same_acceptor.
 (* the general form of the two theorems above: ANY token outside the usable alphabet / length (tok_ok, the
    executable token test of the specification) anywhere in the string makes the parser return an error *)
 Theorem C03_rejects_bad_token : forall s t, In t (split s) -> tok_ok t = false -> exists e, locale_from_bytes s = Err e.
